@@ -527,6 +527,57 @@ pub fn event_digest_text(k : &Ev) -> String
     }
 }
 
+/* Histories aimed at the region where files of equal content and equal age get mixed up: copy-like
+   rules over 2-3 leaves whose contents come from a pool of 2-3 shared values; *epochs* of leaf
+   edits/reverts (sometimes a clean of one target) each followed by a build. */
+pub fn epoch_ops(rng : &mut Rng, leaves : &[String], targets : &[String], epochs : usize, clean_one_in : u64, policy : Option<&[Strategy]>) -> Vec<Op>
+{
+    let mut ops = vec![];
+    let pool : Vec<&[u8]> = if rng.chance(1, 2) { vec![b"A", b"B"] } else { vec![b"A", b"B", b"C"] };
+    let mut sched = |rng : &mut Rng| match policy
+    {
+        Some(p) => SchedSpec{ strategy : rng.pick(p).clone(), seed : 0 },
+        None => SchedSpec::random(rng),
+    };
+    for e in 0..epochs
+    {
+        if e > 0
+        {
+            for l in leaves.iter()
+            {
+                if rng.chance(3, 5) { ops.push(Op::Write{ path : l.clone(), content : rng.pick(&pool).to_vec() }); }
+            }
+            if targets.len() > 0 && clean_one_in > 0 && rng.chance(1, clean_one_in)
+            {
+                let s = sched(rng);
+                ops.push(Op::Clean{ goal : Some(rng.pick(targets).clone()), sched : s });
+            }
+        }
+        let goal = if targets.len() > 0 && rng.chance(1, 8) { Some(rng.pick(targets).clone()) } else { None };
+        let s = sched(rng);
+        ops.push(Op::Build{ goal : goal, sched : s });
+    }
+    ops
+}
+
+pub fn epoch_gen_cfg(thorough : bool, rng : &mut Rng) -> GenCfg
+{
+    let mut g = GenCfg::base(thorough);
+    g.copy_rules = true;
+    g.shared_pool = true;
+    g.empty_salts = true;
+    g.failing = false;
+    g.missing_leaves = false;
+    g.hidden = false;
+    g.twins = false;
+    g.exec = rng.chance(1, 4);
+    g.max_ops = 0;
+    g.min_ops = 0;
+    g.end_with_build = false;
+    g.max_rules = rng.range(2, 5);
+    g
+}
+
 // ---------------------------------------------------------------- minimisation
 
 /* Make the schedules of a case explicit: run it, and replace every policy schedule by the
